@@ -434,6 +434,11 @@ Padded(sp, v, cp) ==
                              ELSE [ok |-> "ok", cp |-> Fill(48, sp.w - Len(cp)) \o cp])
   ELSE [ok |-> "ok", cp |-> Fill(32, sp.w - Len(cp)) \o cp]
 
+\* numbers the platform boundary can be compared on exactly
+GfxNums(xs) == \A i \in DOMAIN xs : xs[i].s = "fin" /\ Small(xs[i])
+RECURSIVE PolyFlat(_, _)
+PolyFlat(heap, vs) == IF Len(vs) = 0 THEN <<>> ELSE heap[vs[1].a].el \o PolyFlat(heap, Tail(vs))
+
 RECURSIVE FmtGo(_, _, _, _)
 \* result: [ok |-> "ok" | "panic" | "unspec", cp |-> text]; args are any-wrapped values
 FmtGo(s, f, args, acc) ==
@@ -548,6 +553,8 @@ ApplyBuiltin(s, f, args) ==
               IN CASE r.ok = "ok" -> IF f = "printf" THEN RetPop(Effect(s, PrintEff(r.cp)), VNone) ELSE RetPop(s, VStr(r.cp))
                    [] r.ok = "panic" -> Panic(s, "fmtverb")
                    [] OTHER -> Unspec(s)
+    \* in a program that no family wrote (fam "Doc") the value could be printed: left open there
+    [] f \in {"rand", "rand1"} /\ TheCase.fam = "Doc" -> Unspec(s)
     [] f = "rand" ->
          LET n == args[1]
          IN IF n.s = "nan" \/ (n.s = "fin" /\ n.m <= 0) \/ n.s = "ninf" THEN Panic(s, "badargs")
@@ -572,7 +579,30 @@ ApplyBuiltin(s, f, args) ==
                   s2 == IF ~pass /\ Len(args) >= 3 THEN [s1 EXCEPT !.msgs = Append(s1.msgs, [cp |-> msg.cp])] ELSE s1
               IN IF Len(args) > 3 /\ msg.ok # "ok" THEN Unspec(s)
                  ELSE IF ~pass /\ TheCase.failFast THEN End(s2, "testfail") ELSE RetPop(s2, VNone)
-    \* graphics and other built-ins without a rule here are opaque: outcome not specified by this module
+    \* graphics: the evaluator hands the (validated, defaulted) arguments to the platform; what the platform
+    \* draws is the subject of Svg.tla.  hsl, grid and font are left open here (result text / derived call not
+    \* fixed by builtins.md at this boundary)
+    [] f \in {"move", "line", "rect", "circle", "width", "dash"} ->
+         IF GfxNums(args) THEN RetPop(Effect(s, <<f>> \o args), VNone) ELSE Unspec(s)
+    [] f \in {"color", "colour", "stroke", "fill", "linecap", "text"} ->
+         RetPop(Effect(s, <<IF f = "colour" THEN "color" ELSE f, [cp |-> args[1].cp]>>), VNone)
+    [] f = "clear" -> IF Len(args) = 0 THEN RetPop(Effect(s, <<"clear", [cp |-> <<>>]>>), VNone)
+                      ELSE IF Len(args) = 1 THEN RetPop(Effect(s, <<"clear", [cp |-> args[1].cp]>>), VNone)
+                      ELSE Unspec(s)
+    [] f = "gridn" -> IF GfxNums(<<args[1]>>) /\ args[1].m > 0
+                      THEN RetPop(Effect(s, <<"gridn", args[1], [cp |-> args[2].cp]>>), VNone) ELSE Unspec(s)
+    \* poly: "if a vertex does not have two elements, a panic occurs"
+    [] f = "poly" -> IF \E i \in DOMAIN args : Len(s.heap[args[i].a].el) # 2 THEN Panic(s, "badargs")
+                     ELSE IF \A i \in DOMAIN args : GfxNums(s.heap[args[i].a].el)
+                          THEN RetPop(Effect(s, <<"poly">> \o PolyFlat(s.heap, args)), VNone) ELSE Unspec(s)
+    \* ellipse x y rx [ry [tilt [start end]]]: ry defaults to rx, tilt to 0, the angles to 0 and 360
+    [] f = "ellipse" -> IF Len(args) \in {3, 4, 5, 7} /\ GfxNums(args)
+                        THEN RetPop(Effect(s, <<"ellipse", args[1], args[2], args[3],
+                                                 IF Len(args) > 3 THEN args[4] ELSE args[3],
+                                                 IF Len(args) > 4 THEN args[5] ELSE I(0),
+                                                 IF Len(args) > 6 THEN args[6] ELSE I(0),
+                                                 IF Len(args) > 6 THEN args[7] ELSE I(360)>>), VNone)
+                        ELSE Unspec(s)
     [] f \in Builtins -> Unspec(s)
     [] OTHER -> Stuck(s)
 
